@@ -59,9 +59,22 @@ type c12case struct {
 	AfterRecoveredPanic bool `json:"after_an_earlier_recovered_panic,omitempty"`
 	// the application took the colours of the severity away: SetLevelColors(severity, NoColor, NoColor)
 	NoColours bool `json:"severity_colours_set_to_none,omitempty"`
+	// the message holds markup (a closing tag, a character entity): the panic value is the message as passed
+	MarkupMsg bool `json:"message_holds_markup,omitempty"`
+	// while the call is made, another goroutine's record on the SAME logger sits inside a destination that does not
+	// return (the Panic / Fatal record itself goes to another, healthy destination of that logger)
+	BusyLogger bool `json:"another_record_of_the_logger_is_inside_a_blocked_write,omitempty"`
 }
 
 // failAfterStore writes the payload through and reports an error all the same.
+// blockingW signals that a Write has begun and never returns from it.
+type blockingW struct{ entered chan struct{} }
+
+func (w blockingW) Write(p []byte) (int, error) {
+	close(w.entered)
+	select {}
+}
+
 type failAfterStore struct{ f *os.File }
 
 func (w failAfterStore) Write(p []byte) (int, error) {
@@ -191,6 +204,20 @@ func c12enumerate() []c12case {
 			out = append(out, x)
 		}
 	}
+	for _, b := range base {
+		if b.Format == "color" && b.Admit && b.Sev == "panic" {
+			x := b
+			x.MarkupMsg = true
+			out = append(out, x)
+		}
+	}
+	for _, b := range base {
+		if b.Format == "json" && b.Admit {
+			x := b
+			x.BusyLogger = true
+			out = append(out, x)
+		}
+	}
 	return out
 }
 
@@ -202,6 +229,9 @@ type c12result struct {
 }
 
 const c12msgBase = "c12-terminating-message #id42#"
+
+// c12markup: what the colored format treats as markup; a panic value is not a colored record
+const c12markup = " <b>bold</b> &amp; done"
 
 // c12msg is the message of the current probe process (the base text, or the base text with trailing line breaks).
 var c12msg = c12msgBase
@@ -255,6 +285,9 @@ func c12exec(c *Ctx, out string) {
 	}
 	if cs.TrailingBreaks {
 		c12msg = c12msgBase + "\r\n\n"
+	}
+	if cs.MarkupMsg {
+		c12msg = c12msgBase + c12markup
 	}
 	if cs.PkgLevelOff {
 		slog.SetLevel(slog.OffLevel)
@@ -311,6 +344,13 @@ func c12exec(c *Ctx, out string) {
 	}
 	if cs.NoColours {
 		slog.SetLevelColors(sev, color.NoColor, color.NoColor)
+	}
+	if cs.BusyLogger {
+		// an Info record of the same logger is inside its normal destination, which does not return
+		entered := make(chan struct{})
+		lg.SetWriter(blockingW{entered})
+		go lg.Info("a record whose destination does not return")
+		<-entered
 	}
 	if cs.AfterRecoveredPanic {
 		// the application survived an earlier Panic of this logger (it recovered); the next one is like the first
@@ -477,7 +517,7 @@ func c12matrix(c *Ctx) {
 		case terminate && cs.Sev == "panic":
 			if exit != 0 || res == nil || !res.Panicked {
 				fail("panic-expected", "admitted Panic without no-interrupt flag must panic")
-			} else if wantMsg := map[bool]string{false: c12msgBase, true: c12msgBase + "\r\n\n"}[cs.TrailingBreaks]; res.Value != wantMsg || res.ValueT != "string" {
+			} else if wantMsg := c12msgBase + map[bool]string{true: "\r\n\n"}[cs.TrailingBreaks] + map[bool]string{true: c12markup}[cs.MarkupMsg]; res.Value != wantMsg || res.ValueT != "string" {
 				fail("panic-value", fmt.Sprintf("panic value is %q (%s), expected the message", res.Value, res.ValueT))
 			} else {
 				c.R.Add("panics_observed", 1)
@@ -559,7 +599,11 @@ func c12execNegative(c *Ctx, out string) {
 				at = ""
 			}
 		}()
-		negSevs := []slog.Level{slog.ErrorLevel, slog.WarnLevel, slog.InfoLevel, slog.DebugLevel, slog.TraceLevel, slog.OffLevel, slog.AlwaysLevel, slog.OKLevel, slog.SuccessLevel, slog.FailLevel, slog.Level(40), slog.Level(-3)}
+		// severities an application registered as "treated as" Fatal / Panic: that is how they are GATED; they are not
+		// the Fatal / Panic severities
+		_ = slog.RegisterLevel(slog.Level(50), "audit-fatal", slog.RegWithTreatedAsLevel(slog.FatalLevel))
+		_ = slog.RegisterLevel(slog.Level(51), "audit-panic", slog.RegWithTreatedAsLevel(slog.PanicLevel), slog.RegWithPrintToErrorDevice(true))
+		negSevs := []slog.Level{slog.Level(50), slog.Level(51), slog.ErrorLevel, slog.WarnLevel, slog.InfoLevel, slog.DebugLevel, slog.TraceLevel, slog.OffLevel, slog.AlwaysLevel, slog.OKLevel, slog.SuccessLevel, slog.FailLevel, slog.Level(40), slog.Level(-3)}
 		for pass, format := range []string{"default", "json", "logfmt", "color", "color-without-colours"} {
 			if format == "color-without-colours" {
 				// the application took the colours of every severity away
